@@ -13,7 +13,7 @@ Two small object models used by C11.
    that carries no jump (process_op_for_jump returns `op` itself), and whose parameter objects are always the caller's.
 
 2. The compiler object (explorerscript/ssb_converting/ssb_compiler.py ExplorerScriptSsbCompiler): which attributes
-   `compile()` resets before doing anything else, which it assigns later, which are constructor state.
+   `compile()` (through `_compile`) resets before doing anything else, which it assigns later, which are constructor state.
 Core Lean only.
 -/
 namespace ESV.Cache
@@ -110,11 +110,12 @@ structure Stages (Src Ctor Res Imp Mac Ord Err : Type) where
   macrosOnly : Src → Bool
   macrosOnlyCheck : Src → Option Err                   -- HasRoutinesVisitor
   routines : Ctor → Mac → Src → Except Err Res         -- RoutineVisitor, strip_last_label, LabelFinalizer, Remover, SourceMapBuilder.build
+  convertErr : Err → Err                               -- compile(): `except RecursionError` re-raises as SsbCompilerError
 
 variable {Src Ctor Res Imp Mac Ord Err : Type}
 
-/-- ExplorerScriptSsbCompiler.compile, statement by statement; returns the object afterwards and the exception raised -/
-def compile (st : Stages Src Ctor Res Imp Mac Ord Err) (o : Comp Ctor Res Imp Mac Ord) (src : Src) :
+/-- ExplorerScriptSsbCompiler._compile, statement by statement; returns the object afterwards and the exception raised -/
+def compileBody (st : Stages Src Ctor Res Imp Mac Ord Err) (o : Comp Ctor Res Imp Mac Ord) (src : Src) :
     Comp Ctor Res Imp Mac Ord × Option Err :=
   let o := { o with res := none, imports := st.emptyImp, macros := st.emptyMac }
   if st.isSsbScript src then
@@ -144,6 +145,16 @@ def compile (st : Stages Src Ctor Res Imp Mac Ord Err) (o : Comp Ctor Res Imp Ma
               match st.routines o.ctor m2 src with
               | .error e => (o, some e)
               | .ok r => ({ o with res := some r }, none)
+
+/-- ExplorerScriptSsbCompiler.compile:
+      try: return self._compile(...)
+      except RecursionError as e: self.routine_infos = self.routine_ops = self.named_coroutines = self.source_map = None; raise SsbCompilerError(...) from e
+(any exception leaves the four result attributes None: `_compile` assigns them last; the handler's assignments are modelled all the same) -/
+def compile (st : Stages Src Ctor Res Imp Mac Ord Err) (o : Comp Ctor Res Imp Mac Ord) (src : Src) :
+    Comp Ctor Res Imp Mac Ord × Option Err :=
+  match compileBody st o src with
+  | (o', none) => (o', none)
+  | (o', some e) => ({ o' with res := none }, some (st.convertErr e))
 
 /-- a freshly constructed compiler object (`__init__`) -/
 def Comp.init (st : Stages Src Ctor Res Imp Mac Ord Err) (c : Ctor) (ord0 : Ord) : Comp Ctor Res Imp Mac Ord :=
